@@ -79,6 +79,30 @@ def run(ctx):
                 rep = d.get("repeat")
                 if rep is not None:
                     ctx.ob("C19.R1", fi, N.is_const(rep) and rep[2] in KAITAI_REPEAT, "repeat: %s is a Kaitai repeat kind" % N.show(rep), key="repeat kind")
+    # textual rewrites of a rendered expression: `this.` may be stripped anywhere (Kaitai names fields without it); `obj_` -> `_` is the
+    # element placeholder of a repeat-until condition and is applied to RepeatUntil's predicate only -- applied to a size or an if-condition it
+    # rewrites every field whose *name* contains `obj_` (obj_size -> _size) and the schema refers to a field that does not exist
+    nrw = 0
+    for fi, cls in funs:
+        for p in paths_of(ctx, fi, cls):
+            terms = [v for e in p.events for v in e.a.values() if isinstance(v, tuple)] + ([p.retval] if p.returns and p.retval is not None else [])
+            seen_rw = set()
+            for v in terms:
+                for x in N.walk(v):
+                    if x[0] == "call" and x[1][0] == "attr" and x[1][2] == "replace" and len(x[2]) == 2 and all(N.is_const(a_) for a_ in x[2]) and x not in seen_rw:
+                        seen_rw.add(x)
+                        a_, b_ = x[2][0][2], x[2][1][2]
+                        src = [y for y in N.walk(x[1][1]) if y[0] == "call" and y[1] == ("free", "repr")]
+                        if not src:
+                            continue
+                        nrw += 1
+                        what = src[0][2][0] if src[0][2] else None
+                        is_pred = what is not None and any(y == N.selfattr("predicate") for y in N.walk(what))
+                        ok_ = (a_, b_) == ("this.", "") or ((a_, b_) == ("obj_", "_") and is_pred)
+                        ctx.ob("C19.R6", fi, ok_, "the rendered expression %s is rewritten %r -> %r: only `this.` may be dropped, and `obj_` -> `_` only in a repeat-until predicate (anything else renames fields the expression refers to)" % (
+                            N.show(what)[:60] if what else "?", a_, b_), key="rewrite %s %r" % (N.show(what)[:60] if what else "?", a_))
+    if nrw < 5:
+        ctx.error("C19.R6: only %d textual rewrites of rendered expressions found in the KSY emitters, floor 5" % nrw)
     fi = M.function("hyphenatedict")
     ps = paths_of(ctx, fi)
     r = N.canon_lids(ps[0].retval) if len(ps) == 1 else None
